@@ -83,3 +83,4 @@ pub mod u_subs;
 pub mod g_effects;
 pub mod g_notify;
 pub mod g_two;
+pub mod u_iter;
